@@ -466,3 +466,46 @@ def examples_under_monitors(job):
                 o, val, wire, where = contracts.State.mismatches[0]
                 R.violation("value-wire-mismatch", "examples/%s: reported value %s but wire expression evaluates to %s" % (name, val, wire), workload="examples/" + name)
     return {p: runs[p].export() for p in props}
+
+
+INDEX_PROGRAMS = [
+    "x0 = PrivVal(I[0])\nx1 = PrivVal(I[1])\nA = Array([x0, x1, 7, x0 * x1])\nr = A[PrivVal(I[2])] + 0\n",
+    "x0 = PrivVal(I[0])\nx1 = PrivVal(I[1])\nA = Array([x0, x1, 5])\nA[PrivVal(I[2])] = x0 + x1\nr = A[1] + A[PrivVal(I[3])] + 0\n",
+    "x0 = PrivVal(I[0])\nx1 = PrivVal(I[1])\nA = Array([Array([x0, 1]), Array([x1, x0]), Array([3, 4])])\nr = A[PrivVal(I[2]), PrivVal(I[3])] + 0\nA[PrivVal(I[3]), PrivVal(I[2])] = x1\nr2 = A[1][PrivVal(I[3])] + 0\n",
+    "x0 = PrivVal(I[0])\ni = PrivVal(I[2])\nj = i + PrivVal(I[3])\nA = Array([1, 2, x0, 4, 5])\nr = A[j] + A[i] * 2 + 0\n",
+]
+
+
+def index_family(job):
+    """C06 for secret array indices: every index value - in range with checks on, out of range / negative with checks
+    off - must give the same constraint system."""
+    from vf.gen import prog as G
+    from vf import recorder
+    rt = boot.attach()
+    neutral = boot.Neutral()
+    R = common.Run("C06", LEVEL["C06"], RULES["C06"])
+    rnd = random.Random(job["seed"])
+    for src in INDEX_PROGRAMS:
+        prog = G.Prog(src, [], 16, 0)
+        chunks = G.compile_chunks(src)
+        ref = None
+        for trial in range(job.get("n", 12)):
+            checked = trial < 4
+            idx = [rnd.randint(0, 1), rnd.randint(0, 1)] if checked else [rnd.choice([-1, -2, -5, 2, 3, 9, 0, 1]), rnd.choice([-1, -3, 4, 0, 1])]
+            inputs = [rnd.randint(-9, 9), rnd.randint(-9, 9)] + idx
+            out = G.run_api(prog, inputs, neutral, modulus=rnd.choice([recorder.BN254, recorder.BLS381]) if False else recorder.BN254, ignore=not checked, chunks=chunks)
+            if out.exc is not None:
+                R.count("index_family_runs_raised")
+                continue
+            tr = r1cs.canon_trace(out.snap)
+            kind = "checked-in-range" if checked else ("unchecked-negative" if min(idx) < 0 else "unchecked")
+            if ref is None:
+                ref = (inputs, tr)
+                continue
+            R.count("trace_events_compared", len(tr))
+            R.case(cell="array-index-family|" + kind, key=_hash(src, inputs, checked), nontrivial=inputs != ref[0])
+            if tr != ref[1]:
+                pos = next((i for i, (a, b) in enumerate(zip(tr, ref[1])) if a != b), min(len(tr), len(ref[1])))
+                R.violation("trace-depends-on-values", "array program: canonical trace for indices %s (%s) differs from indices %s at event %d" % (
+                    idx, kind, ref[0][2:], pos), src=src, inputs_a=ref[0], inputs_b=inputs, ignore_b=not checked, bl=16, res=0, p=recorder.BN254)
+    return {"C06": R.export()}
